@@ -487,6 +487,65 @@ def check_routing(M, tables: dict, stats: Counter) -> list:
     return out
 
 
+RENAMERS = ["LiftConstantsToInitializersPass", "LiftSubgraphInitializersToMainGraphPass", "NameFixPass",
+            "IdentityEliminationPass", "CommonSubexpressionEliminationPass", "OutputFixPass"]  # = OV.C15.renamingPasses
+
+
+def check_quiet_passes(M, src_passes: dict, stats: Counter) -> list:
+    """Per-pass contract of `rewrite_and_replace_leave_argument`: every pass of the pipelines the source builds for
+    rewrite / replace_functions, run alone on de(M) and serialised, leaves M's bytes alone (QuietPass, DeQuiet);
+    the named renaming passes are run too, to show the set is not vacuous (they do write through on some models)."""
+    import onnx_ir.passes.common as cp
+    import onnxscript.rewriter as rw
+    from onnxscript import ir
+
+    if serde_refuses(M):
+        return []
+    out = []
+    before = M.SerializeToString(deterministic=True)
+
+    def run_one(name):
+        Mc = copy.deepcopy(M)
+        m = ir.serde.deserialize_model(Mc)
+        if name == "AddFunctions":
+            fn = ir.serde.deserialize_function(c15_gen.triple_function(18))
+            m.functions[fn.identifier()] = fn
+        elif name == "RewritePass":
+            rw.RewritePass(rw._DEFAULT_REWRITE_RULES)(m)
+        elif name == "LiftConstantsToInitializersPass":
+            cp.LiftConstantsToInitializersPass(lift_all_constants=True, size_limit=0)(m)
+        else:
+            getattr(cp, name)()(m)
+        ir.serde.serialize_model(m)
+        return Mc.SerializeToString(deterministic=True) != before
+
+    Mc = copy.deepcopy(M)
+    ir.serde.serialize_model(ir.serde.deserialize_model(Mc))
+    if Mc.SerializeToString(deterministic=True) != before:
+        out.append(("tie", None, "DeQuiet: deserialise+serialise alone changed the source proto"))
+    for api in ("rewrite", "replace_functions"):
+        for name in src_passes.get(api, []):
+            if name in RENAMERS:
+                continue  # the Lean theorem source_rewrite_replace_run_no_renaming_pass is rejected in that case
+            try:
+                wrote = run_one(name)
+            except Exception as e:  # noqa: BLE001
+                stats[f"quiet_pass_raised_{name}"] += 1
+                continue
+            stats["quiet_pass_checked"] += 1
+            if wrote:
+                out.append(("tie", None, f"QuietPass: {name} (pipeline of {api}) run alone wrote into the proto its model was deserialised from"))
+    for name in RENAMERS:
+        if not hasattr(cp, name):
+            continue
+        try:
+            if run_one(name):
+                stats[f"renamer_wrote_through_{name}"] += 1
+        except Exception:  # noqa: BLE001
+            stats[f"renamer_raised_{name}"] += 1
+    return out
+
+
 # --------------------------------------------------------------------------- cases
 
 
@@ -505,6 +564,8 @@ def run_case(case: dict, tables: dict, stats: Counter) -> list:
         return check_inline(M, tables, stats)
     if api == "routing":
         return check_routing(M, tables, stats)
+    if api == "quiet_passes":
+        return check_quiet_passes(M, tables["_src_passes"], stats)
     return check_wrapper(api, M, case.get("options", {}), info["features"]["opset"], tables, stats)
 
 
@@ -718,6 +779,8 @@ def main(run: core.Run) -> None:
             gen_file.write_text(gen_before)
     drv = core.Driver("C15")
     tables = driver_tables(drv)
+    tables["_src_passes"] = src["passes"]
+    run.coverage["source_tables"]["pass_lists"] = src["passes"]
     stats: Counter = Counter()
 
     if run.replay_path:
@@ -817,6 +880,8 @@ def _main(run: core.Run, audit: dict, tables: dict, stats: Counter) -> None:
             if len(run.samples) < 6 and k % 7 == 0 and api in ("optimize", "convert_version", "rewrite_rules"):
                 run.sample({"case": case, "opset": info["features"]["opset"], "ir_version": info["features"]["ir_version"]})
         do({"api": "inline", "gen_seed": seed})
+        if k % 2 == 0:
+            do({"api": "quiet_passes", "gen_seed": seed})
 
     replay_known(run, stats)
     replay_refutation_witnesses(stats)
@@ -882,7 +947,8 @@ def _main(run: core.Run, audit: dict, tables: dict, stats: Counter) -> None:
     required = [
         "branch_default_limits_straddled", "branch_explicit_limits_on_growing_fold", "branch_inline_false_with_functions",
         "branch_capi_with_big_overridable_initializer", "branch_convert_same_version", "convert_capi_path",
-        "branch_fold_reports_unmodified", "branch_fold_unmodified_with_shape_inference",
+        "branch_fold_reports_unmodified", "branch_fold_unmodified_with_shape_inference", "quiet_pass_checked",
+        "renamer_wrote_through_LiftConstantsToInitializersPass",
         "replace_guard_functions_0", "replace_guard_functions_1", "inline_functions_0", "inline_functions_1",
         "routes_checked", "serde_refused_models", "feat_subgraph_if", "feat_const_tensor_node=anon", "feat_explicit_defaults",
         "feat_function_value_info", "feat_other_fields", "feat_tensor_meta", "err_convert_version_VersionConverterError",
